@@ -451,7 +451,7 @@ class MargBase(Contract):
         return [self.model, self.x, case["dim"]], {}
 
 
-@contract(GHM + ".marginal_pdf", ["C06"], _marg_cases(), name="ghm.marginal_pdf")
+@contract(GHM + ".marginal_pdf", ["C06"], _marg_cases(), name="ghm.marginal_pdf", thorough_cases=_marg_cases((4,)))
 class MargPdf(MargBase):
     """unconditional variable: its own pdf; conditional variable: for every x_i the joint pdf integrated over
     (0, inf) in EVERY other variable with variable `dim` held at x_i"""
@@ -511,7 +511,7 @@ class MargPdf(MargBase):
                   "every other variable is integrated exactly once (argument reordering is a bijection onto the other coordinates)")
 
 
-@contract(GHM + ".marginal_cdf", ["C06"], _marg_cases(), name="ghm.marginal_cdf")
+@contract(GHM + ".marginal_cdf", ["C06"], _marg_cases(), name="ghm.marginal_cdf", thorough_cases=_marg_cases((4,)))
 class MargCdf(MargBase):
     """conditional variable: joint pdf integrated over (0, inf) in every other variable and over (0, x_i) in `dim`"""
     result_names = ("F",)
@@ -566,7 +566,8 @@ class MargCdf(MargBase):
         cx.oblige("post.integrand.bijection", sorted(seen) == list(range(nd)), "post")
 
 
-@contract(J + "MultivariateModel.cdf", ["C06", "C18", "C19"], [dict(co=co) for co in structures((2, 3))] + [dict(co=[None, 0], nonfinite=True)], name="ghm.cdf")
+@contract(J + "MultivariateModel.cdf", ["C06", "C18", "C19"], [dict(co=co) for co in structures((2, 3))] + [dict(co=[None, 0], nonfinite=True)], name="ghm.cdf",
+          thorough_cases=[dict(co=co) for co in structures((4,))])
 class GhmCdf(MargBase):
     """cdf(x)[i] = integral of the joint pdf over (0, x[i, j]) in variable j, for every j (lower-left orthant);
     non-finite points are rejected; the caller's array is not written"""
@@ -626,7 +627,7 @@ class GhmCdf(MargBase):
             cx.oblige(f"post.integrand.range{j}", T.eq(term_of(r[1]), self.x.get((i, j))) if okr else False, "post", "variable j is integrated over (0, x[i, j])")
 
 
-@contract(GHM + ".marginal_icdf", ["C06", "C16"], _marg_cases(), name="ghm.marginal_icdf")
+@contract(GHM + ".marginal_icdf", ["C06", "C16"], _marg_cases(), name="ghm.marginal_icdf", thorough_cases=_marg_cases((4,)))
 class MargIcdf(Contract):
     """unconditional variable: its own icdf (exact); conditional variable: the empirical p-quantile of column `dim`
     of a fresh sample of n = max(int(100 precision_factor / min(p_min, 1 - p_max)), 100000) points"""
